@@ -155,24 +155,23 @@ Section Fields.
   (* what one call delivers: Undo events, then New events, then Irreversible / Stalled events; the Undo and
      New events carry the cursor LIB L and their own block as cursor block; afterwards the cursor LIB is
      the LIB of the forkdb again; the nums entry of InitLIB does not come back *)
-  Definition StepShape (L : ref) (s0 : fstate) (res : fstate * list event * result) : Prop :=
+  Definition StepShape (L : ref) (fi : option seg) (s0 : fstate) (res : fstate * list event * result) : Prop :=
     exists s' evU evN evL r, res = (s', evU ++ evN ++ evL, r) /\
       Forall (fun e => estep e = SUndo) evU /\ Forall (fun e => estep e = SNew) evN /\
       Forall (fun e => estep e = SIrr \/ estep e = SStalled) evL /\
       Forall (fun e => elib e = L /\ ecblk e = bref (eblk e)) (evU ++ evN) /\
-      (r = ROk -> cursor_lib s' = libref (db s')) /\
+      (r = ROk -> cursor_lib s' = libref (db s') \/ exists f, fi = Some f /\ last_lib_seen s' = seg_ref f) /\
       (extra (db s0) = None -> extra (db s') = None).
 
-  Lemma shape_quiet L s0 s r : cursor_lib s = libref (db s) -> (extra (db s0) = None -> extra (db s) = None) ->
-    StepShape L s0 (s, [], r).
+  Lemma shape_quiet L fi s0 s r : cursor_lib s = libref (db s) -> (extra (db s0) = None -> extra (db s) = None) ->
+    StepShape L fi s0 (s, [], r).
   Proof.
     intros Hc Hx. exists s, [], [], [], r. split; [reflexivity|]. repeat split; try constructor; auto.
   Qed.
 
-  (* with first_irr = None (a LIB was known when the block arrived) *)
-  Lemma process_tail_fields s1 b undos redos junc longest :
+  Lemma process_tail_fields s1 b undos redos junc longest fi :
     Forall std_sg longest -> cursor_lib s1 = libref (db s1) ->
-    StepShape (cursor_lib s1) s1 (process_tail cfg s1 b undos redos junc longest None).
+    StepShape (cursor_lib s1) fi s1 (process_tail cfg s1 b undos redos junc longest fi).
   Proof.
     intros Hstd Hcl. unfold process_tail.
     assert (HU : exists sa evU, (if f_undo (c_filter cfg) then process_blocks cfg b undos SUndo junc s1 else (s1, [], true)) = (sa, evU, true) /\
@@ -202,24 +201,32 @@ Section Fields.
     assert (Hc3 : cursor_lib s3 = libref (db s3)).
     { unfold cursor_lib. rewrite Hll3, Hl3, Hb3, Ha3, Hb1, Ha1. exact Hcl. }
     assert (Hx : extra (db s1) = None -> extra (db s3) = None) by (rewrite Hx3, Hb1, Ha1; auto).
-    assert (Hstay : forall r, StepShape (cursor_lib s1) s1 (s3, evU ++ evR ++ evN, r)).
+    assert (Hstay : forall r, StepShape (cursor_lib s1) fi s1 (s3, evU ++ evR ++ evN, r)).
     { intros r. exists s3, evU, (evR ++ evN), [], r. rewrite app_nil_r. split; [reflexivity|].
-      split; [exact HsU|]. split; [exact HsN|]. split; [constructor|]. split; [exact HF|]. split; [intros _; exact Hc3 | exact Hx]. }
+      split; [exact HsU|]. split; [exact HsN|]. split; [constructor|]. split; [exact HF|]. split; [intros _; left; exact Hc3 | exact Hx]. }
     destruct (last_sent s3) as [ls|]; [|apply Hstay].
     destruct (negb (has_lib (db s3))); [apply Hstay|].
     destruct (block_in_chain (db s3) (bref ls) (blib ls)) as [libr|]; [|apply Hstay].
     destruct (ri libr =? 0); [apply Hstay|].
     destruct (has_new_irr_segment (db s3) (c_first cfg) libr) as [[[hn irr0] stalled]|] eqn:Hn; [|apply Hstay].
-    destruct hn; cbn [negb andb]; [|apply Hstay].
-    (* the LIB moves *)
-    assert (Hirr0 : irr0 <> [] /\ forall b0, seg_ref (last irr0 b0) = libr).
-    { unfold has_new_irr_segment in Hn. destruct (ri (libref (db s3)) =? ri libr); [discriminate|].
-      destruct (reversible_segment (db s3) (c_first cfg) libr) as [[irr rr]|] eqn:Hrs; [|discriminate].
-      destruct irr as [|i0 irr']; [discriminate|]. injection Hn as <- _.
-      split; [discriminate|]. intros b0. apply (rs_last _ _ _ _ _ b0 Hrs). discriminate. }
-    destruct Hirr0 as [Hne Hlast]. destruct irr0 as [|i0 irr'] eqn:Ei; [congruence|]. rewrite <- Ei in *.
+    set (irr := match fi with Some f => irr0 ++ [f] | None => irr0 end).
+    assert (Hgo : negb hn && match fi with None => true | Some _ => false end = false ->
+              exists i0 irr', irr = i0 :: irr' /\
+                (seg_ref (last irr i0) = libr \/ exists f, fi = Some f /\ seg_ref (last irr i0) = seg_ref f)).
+    { intros Hg. destruct fi as [f|].
+      - unfold irr. destruct irr0 as [|i0 irr']; cbn [app].
+        + exists f, []. split; [reflexivity|]. right. exists f. split; reflexivity.
+        + exists i0, (irr' ++ [f]). split; [reflexivity|]. right. exists f. split; [reflexivity|].
+          change (i0 :: irr' ++ [f]) with ((i0 :: irr') ++ [f]). rewrite last_last. reflexivity.
+      - rewrite andb_true_r in Hg. apply negb_false_iff in Hg. subst hn. unfold irr.
+        unfold has_new_irr_segment in Hn. destruct (ri (libref (db s3)) =? ri libr); [discriminate|].
+        destruct (reversible_segment (db s3) (c_first cfg) libr) as [[ir rr]|] eqn:Hrs; [|discriminate].
+        destruct ir as [|i0 irr']; [discriminate|]. injection Hn as <- _.
+        exists i0, irr'. split; [reflexivity|]. left. apply (rs_last _ _ _ _ _ i0 Hrs). discriminate. }
+    destruct (negb hn && match fi with None => true | Some _ => false end) eqn:Hg; [apply Hstay|].
+    destruct (Hgo eq_refl) as (i0 & irr' & Ei & Hlast). fold irr.
     set (d' := purge_before_lib (move_lib (db s3) libr) (c_kept cfg)).
-    destruct (process_irr_segment_ok cfg Hnofail irr0 i0 irr' (bref b) (with_db s3 d') Ei)
+    destruct (process_irr_segment_ok cfg Hnofail irr i0 irr' (bref b) (with_db s3 d') Ei)
       as (s5 & ev5 & -> & Hdb5 & Hls5 & Hlls5 & Hm5 & Hs5). cbn [negb].
     destruct (process_stalled_segment_ok cfg Hnofail stalled (bref b) s5)
       as (s6 & ev6 & -> & (Hdb6 & Hls6 & Hlls6) & Hm6 & Hs6).
@@ -227,7 +234,9 @@ Section Fields.
     split; [exact HsU|]. split; [exact HsN|]. split.
     { apply Forall_app. split; [eapply Forall_impl; [|exact Hs5] | eapply Forall_impl; [|exact Hs6]]; cbn beta; auto. }
     split; [exact HF|]. split.
-    - intros _. apply cursor_lib_self. rewrite Hlls6, Hlls5, Hdb6, Hdb5, Hlast. reflexivity.
+    - intros _. destruct Hlast as [Hlast|(f & Hf & Hlast)].
+      + left. apply cursor_lib_self. rewrite Hlls6, Hlls5, Hdb6, Hdb5, Hlast. reflexivity.
+      + right. exists f. split; [exact Hf|]. rewrite Hlls6, Hlls5. exact Hlast.
     - intros _. rewrite Hdb6, Hdb5. reflexivity.
   Qed.
 
@@ -262,10 +271,10 @@ Section Fields.
   Hypothesis Hincl : c_incl cfg = false.
 
   Lemma fk_step_fields s b : has_lib (db s) = true -> cursor_lib s = libref (db s) -> bid b <> 0 ->
-    StepShape (cursor_lib s) s (fk_step cfg s b).
+    StepShape (cursor_lib s) None s (fk_step cfg s b).
   Proof.
     intros Hhl Hcl Hz. unfold fk_step.
-    assert (Hsame : forall r, StepShape (cursor_lib s) s (s, [], r)) by (intros r; apply shape_quiet; auto).
+    assert (Hsame : forall r, StepShape (cursor_lib s) None s (s, [], r)) by (intros r; apply shape_quiet; auto).
     destruct (N.eqb_spec (bid b) (bparent b)) as [Ep|Ep]; [apply Hsame|].
     destruct ((bnum b <? rn (libref (db s))) && match last_sent s with Some _ => true | None => false end); [apply Hsame|].
     rewrite Hincl. cbn [andb].
@@ -284,14 +293,14 @@ Section Fields.
     { unfold cursor_lib. cbn [with_db last_lib_seen db]. rewrite Hl1. reflexivity. }
     assert (Hcl1 : cursor_lib (with_db s d1) = libref (db (with_db s d1))).
     { rewrite Hc1, Hcl. cbn [with_db db]. symmetry. exact Hl1. }
-    assert (Hsame1 : forall r, StepShape (cursor_lib s) s (with_db s d1, [], r)).
+    assert (Hsame1 : forall r, StepShape (cursor_lib s) None s (with_db s d1, [], r)).
     { intros r. apply shape_quiet; [exact Hcl1|]. cbn [with_db db]. rewrite Hx1. auto. }
     cbn [with_db db].
     destruct (reversible_segment d1 (c_first cfg) (bref b)) as [[longest reach]|] eqn:Hrs; [|apply Hsame1].
     destruct (negb (triggers cfg s b) || match longest with [] => true | _ => false end); [apply Hsame1|].
     assert (Hstd : Forall std_sg longest).
     { apply (rs_std _ _ _ _ _ Hrs). cbn [bref ri rn]. apply (add_link_find _ _ _ Hal Ep Hz). }
-    destruct (process_tail_fields (with_db s d1) b undos redos junc longest Hstd Hcl1)
+    destruct (process_tail_fields (with_db s d1) b undos redos junc longest None Hstd Hcl1)
       as (s' & evU & evN & evL & r & Hrun & HsU & HsN & HsL & HF & Hc & Hx).
     rewrite Hc1 in HF.
     exists s', evU, evN, evL, r. split; [exact Hrun|]. repeat split; try assumption.
